@@ -41,7 +41,12 @@ GRelayout == \E f \in File :
 GReopen == \E f \in File :
              /\ open[f] # None /\ root # f
              /\ Open(f, open[f]) /\ hist' = Append(hist, [ev |-> "Reopen", file |-> f, t |-> open[f]])
-GNext == Len(hist) < MaxEvents /\ (GOpen \/ GChange \/ GRelayout \/ GReopen)
+\* the editor saves a document: nothing changes for the server (the buffer stays the source of truth, the disk of the model is
+\* left alone: the editor's write may not have happened yet)
+GSave == \E f \in File :
+             /\ open[f] # None
+             /\ UNCHANGED svars /\ hist' = Append(hist, [ev |-> "Save", file |-> f, t |-> open[f]])
+GNext == Len(hist) < MaxEvents /\ (GOpen \/ GChange \/ GRelayout \/ GReopen \/ GSave)
 GSpec == GInit /\ [][GNext]_gvars
 
 EmitSession == Len(hist) > 0 =>
